@@ -45,7 +45,7 @@ ASSUMPTIONS = [
 ]
 RULE = ("documents whose first heading is ATX / setext (closing hashes, leading spaces, multi-line setext), level 1 or 2, "
         "preceded or not by prose / recipe blocks / quoted headings, followed by further headings; titles that contain the serving phrase earlier with the identical spelling (and the phrase doubled), one- and two-character titles (letter, digit, astral), titles with 'for', "
-        "digits, punctuation, entities, non-ASCII, '%', inline markup, raw inline HTML that is not an element (comment, processing instruction, declaration, CDATA: no title, no count, plain rendering), scaled-value braces; a count of 0 (must be shown); every documented phrase x "
+        "digits, punctuation, entities, non-ASCII, '%', inline markup, raw inline HTML that is not an element (comment, processing instruction, declaration, CDATA: no title, no count, plain rendering), scaled-value braces with and without numbers, empty braces, escaped braces (plain text); a count of 0 (must be shown); every documented phrase x "
         "case variants (incl. U+017F, U+212A, U+0130/0131) x spacings (space, tab, NBSP, U+3000, several) x N (1 digit "
         "to 4301 digits, leading zeros) x trailing space; near-miss endings; a case is non-trivial when the document "
         "has a heading; distinct = distinct document text")
@@ -120,6 +120,9 @@ def oracle(spec: Dict[str, Any], res: Dict[str, Any]) -> Optional[str]:
         # no heading first / lower level / markup: no serving count (the title is not constrained by the text)
         if servings is not None:
             return f"serving count {servings} inferred although {spec['why_not']}"
+        if spec.get("brace") and title is not None:
+            # a heading with a scaled-value (brace) expression, with or without a number inside: no title either
+            return f"title {title!r} inferred although the heading contains a brace expression"
         if spec.get("raw_html"):
             # raw inline HTML (comment, processing instruction, declaration, CDATA) is markup: no title either, and
             # the heading is rendered exactly as plain CommonMark renders it
@@ -271,6 +274,7 @@ ENTITY_LIKE_TITLES: List[Tuple[str, str]] = [
     ("&#x26;amp; co", "&amp; co"),
 ]
 TITLES += ENTITY_LIKE_TITLES
+TITLES += [("Soup \\{x\\}", "Soup {x}"), ("\\{not scaled\\} stew", "{not scaled} stew")]
 # titles that contain the serving phrase earlier with the identical spelling (and the phrase doubled), one- and two-character titles (letter, digit, non-ASCII, astral)
 SHORT_TITLES: List[Tuple[str, str]] = [("A", "A"), ("7", "7"), ("\U0001f355", "\U0001f355"), ("\xe9", "\xe9"), ("ab", "ab"),
                                        ("x1", "x1"), ("\U0001f355\U0001f355", "\U0001f355\U0001f355"), ("42", "42"), ("z", "z")]
@@ -278,6 +282,8 @@ TITLES += SHORT_TITLES
 PERCENT_TITLES = [("100% rye", "100% rye"), ("50%", "50%"), ("Rye (100%)", "Rye (100%)")]
 RAW_HTML_TITLES = ["Lentil soup <!-- v2 -->", "<!--x--> Soup", "Soup <?php x ?>", "Soup <!DOCTYPE x>", "Soup <![CDATA[x]]>",
                    "Soup <!-- a --> and <!-- b -->", "<?x?>"]
+# brace (scaled value) expressions WITHOUT a number, and empty braces: still scaled-value expressions
+BRACE_TITLES = ["Spam {with eggs}", "{} Soup", "Soup {a b} stew", "{x}", "Eggs {with 2 yolks}", "Soup {for}"]
 MARKUP_TITLES = ["*Spam*", "`code` pie", "[Spam](http://x)", "Spam <b>bold</b>", "Spam **and** eggs", "{2} eggs", "Eggs {1/2}",
                  "![img](a.png) cake", "<span>x</span>"]
 SPACINGS = [" ", " ", "  ", "\t", " \t ", "\xa0", " \xa0", "\u3000", "\u2003 ", "&nbsp;"]
@@ -382,9 +388,11 @@ def gen_doc(rng: random.Random, phrases: List[List[str]]) -> Tuple[str, Dict[str
         spec.update(lenient=True, title=None)
         tags.append("ending:undocumented-form")
     elif kind == "markup":
-        m = rng.choice(MARKUP_TITLES + RAW_HTML_TITLES)
+        m = rng.choice(MARKUP_TITLES + RAW_HTML_TITLES + BRACE_TITLES)
         if m in RAW_HTML_TITLES:
             spec["raw_html"] = True
+        if m in BRACE_TITLES:
+            spec["brace"] = True
         ph = rng.choice(phrases)
         inline = m + " " + " ".join(ph) + " " + str(rng.randrange(1, 9))
         spec.update(captured=False, why_not="the heading contains markup or a scaled value")
@@ -420,6 +428,8 @@ def gen_doc(rng: random.Random, phrases: List[List[str]]) -> Tuple[str, Dict[str
     doc = "\n".join(pre + lines + post)
     if spec.get("raw_html") and (level != 1 or k in (2, 3)):
         del spec["raw_html"]          # another reason / another heading decides: only the count is constrained
+    if spec.get("brace") and (level != 1 or k in (2, 3)):
+        del spec["brace"]
     spec["doc"] = doc if spec.get("raw_html") else None
     spec["heading"] = inline[:200]
     spec["heading_plain"] = plain_full
@@ -522,6 +532,19 @@ def suites(tier: str, seed: int) -> List[Suite]:
                 if doc not in seen and structure_ok(doc, spec):
                     seen.add(doc)
                     ti.cases.append(make_case(doc, spec, ["systematic", "title:raw-html", "style:" + style]))
+    # brace expressions without a number (also around the phrase itself) in the first heading
+    for ph in phrases:
+        phtxt = " ".join(ph)
+        for inline in [b + " " + phtxt + " 2" for b in BRACE_TITLES] + ["Pancakes {" + phtxt + "} 4",
+                                                                         "Pancakes {" + phtxt + " 4}",
+                                                                         "Pancakes " + phtxt + " {} 4"]:
+            for style in ("atx", "setext"):
+                doc = ("# " + inline + "\n\nProse.\n") if style == "atx" else (inline + "\n===\n\nProse.\n")
+                spec = {"captured": False, "why_not": "the heading contains a scaled-value (brace) expression",
+                        "brace": True, "phrase": None, "percent": False, "heading": inline, "heading_plain": inline}
+                if doc not in seen and structure_ok(doc, spec):
+                    seen.add(doc)
+                    ti.cases.append(make_case(doc, spec, ["systematic", "title:brace-no-number", "style:" + style]))
     # a count of zero
     for ph in phrases:
         for digits in ("0", "00"):
